@@ -234,3 +234,15 @@ def run(tier, seed):
                         "absolute positioning, consistent arcs (end point on the circle)"],
         "wall_s": round(time.time() - started, 2), "violations": nviol})
     return status
+
+
+def replay(payload):
+    import harness.rig  # noqa: F401
+    case = payload["case"]
+    event = {"plan": observe_plan, "centre": observe_centre, "deep": observe_deep}[
+        payload["kind"]](case)
+    clean = dict((k, v) for k, v in event.items() if k != "case")
+    verdicts = common.validate_traces("TraceArc", "TraceArc.cfg", [{"id": 1, "ev": [clean]}],
+                                      "replay")
+    print("replay verdict for C16: %s" % json.dumps(verdicts[0]["v"] or "ok"))
+    return 1 if verdicts[0]["v"] else 0
